@@ -68,6 +68,60 @@ fn p_files(t: &mut Toks) -> Result<Vec<(Vec<String>, FileDoc)>, String> {
     Ok(out)
 }
 
+/// YAML double-quoted scalar: printable ASCII as is, everything else as \\uXXXX / \\UXXXXXXXX.
+fn emit_dq(s: &str, out: &mut String) {
+    out.push('"');
+    for c in s.chars() {
+        match c {
+            '"' => out.push_str("\\\""),
+            '\\' => out.push_str("\\\\"),
+            ' '..='~' => out.push(c),
+            _ if (c as u32) <= 0xffff => out.push_str(&format!("\\u{:04x}", c as u32)),
+            _ => out.push_str(&format!("\\U{:08x}", c as u32)),
+        }
+    }
+    out.push('"');
+}
+
+/// Flow-style YAML (JSON-like, explicit `? key : value` entries so that any node can be a key).
+fn emit_flow(y: &serde_yaml::Value, out: &mut String) {
+    use serde_yaml::Value as Y;
+    match y {
+        Y::Null => out.push_str("null"),
+        Y::Bool(b) => out.push_str(if *b { "true" } else { "false" }),
+        Y::Number(n) => out.push_str(&n.to_string()),
+        Y::String(s) => emit_dq(s, out),
+        Y::Sequence(l) => {
+            out.push('[');
+            for (i, x) in l.iter().enumerate() {
+                if i > 0 {
+                    out.push_str(", ");
+                }
+                emit_flow(x, out);
+            }
+            out.push(']');
+        }
+        Y::Mapping(m) => {
+            out.push('{');
+            for (i, (k, v)) in m.iter().enumerate() {
+                if i > 0 {
+                    out.push_str(", ");
+                }
+                out.push_str("? ");
+                emit_flow(k, out);
+                out.push_str(" : ");
+                emit_flow(v, out);
+            }
+            out.push('}');
+        }
+        Y::Tagged(t) => {
+            out.push_str(&t.tag.to_string());
+            out.push(' ');
+            emit_flow(&t.value, out);
+        }
+    }
+}
+
 pub fn write_tree(root: &Path, files: &[(Vec<String>, FileDoc)]) -> Result<(), String> {
     std::fs::create_dir_all(root).map_err(|e| e.to_string())?;
     for (path, doc) in files {
@@ -86,11 +140,21 @@ pub fn write_tree(root: &Path, files: &[(Vec<String>, FileDoc)]) -> Result<(), S
                 std::os::unix::fs::symlink(target, &p).map_err(|e| e.to_string())?
             }
             FileDoc::Doc(y) => {
-                let text = serde_yaml::to_string(y).map_err(|e| e.to_string())?;
-                let back: serde_yaml::Value =
-                    serde_yaml::from_str(&text).map_err(|e| format!("yaml roundtrip parse: {e}"))?;
-                if &back != y {
-                    return Err(format!("yaml roundtrip differs for {text:?}"));
+                // serde_yaml's own emitter first; for the few shapes it cannot read back (container
+                // keys below nested sequences) a plain flow-style emitter.  Either way the text
+                // written must parse back to the same AST.
+                let roundtrips = |text: &str| -> bool {
+                    matches!(serde_yaml::from_str::<serde_yaml::Value>(text), Ok(back) if &back == y)
+                };
+                let mut text = serde_yaml::to_string(y).unwrap_or_default();
+                if text.is_empty() || !roundtrips(&text) {
+                    let mut flow = String::new();
+                    emit_flow(y, &mut flow);
+                    flow.push('\n');
+                    if !roundtrips(&flow) {
+                        return Err(format!("yaml roundtrip differs for {text:?} and for {flow:?}"));
+                    }
+                    text = flow;
                 }
                 std::fs::write(&p, text).map_err(|e| e.to_string())?;
             }
